@@ -38,12 +38,12 @@ func (e c12Event) String() string {
 }
 
 type c12Inst struct {
-	id       int
-	peer     string
-	ctx      context.Context
-	release  chan error
-	released bool
-	exited   bool
+	id               int
+	peer             string
+	ctx              context.Context
+	release          chan error
+	released         bool
+	exited           bool
 	cancelledOnEntry bool
 }
 
